@@ -72,6 +72,7 @@ func runInproc(c *check, replay string) int {
 		o, err := run(dir, []string{"VERIF_REPO=" + repoDir}, "go", "test", "-run", "^$", "-fuzz", "^"+c.fuzz+"$", "-fuzztime", c.fuzzTime, ".")
 		if err != nil {
 			if strings.Contains(o, "Failing input written to") {
+				violationPrinted = true
 				fmt.Printf("VIOLATION property=%s replay=%s\n%s\n", c.id, filepath.Join(verifDir, "replays", "found", c.id+"-fuzz.txt"), indent(lastLines(o, 25)))
 				os.MkdirAll(filepath.Join(verifDir, "replays", "found"), 0o755)
 				os.WriteFile(filepath.Join(verifDir, "replays", "found", c.id+"-fuzz.txt"), []byte(o), 0o644)
